@@ -54,6 +54,16 @@ Theorem C02_from_floating_point_writes_inside : forall whole part precision buf,
 Proof. exact C02.ProofsFf.ffp_never_out_of_span. Qed.
 Print Assumptions C02_from_floating_point_writes_inside.
 
+(* ... and when they fit: exactly the text (integer digits, '.', fraction digits padded to the precision) and its
+   terminator are written, the rest of the span is untouched, end points at the decimal point (null for precision 0) *)
+Theorem C02_from_floating_point_text : forall whole part precision buf txt w, 0 <= whole -> 0 <= part -> 0 <= precision ->
+  C02.ModelFf.ffp_text whole part precision = Some txt -> C02.ModelFf.to_string_chars whole 0 = Some w ->
+  (length txt + 1 <= length buf)%nat ->
+  C02.ModelFf.ffp_m whole part precision buf
+  = Ok (txt ++ 0 :: skipn (length txt + 1) buf, 0, if precision =? 0 then None else Some (Z.of_nat (length w))).
+Proof. exact C02.ProofsFf.ffp_writes_text. Qed.
+Print Assumptions C02_from_floating_point_text.
+
 (* the function as it was before the fix never looked at out.size(): 233.007, precision 3, span of one character *)
 Theorem C02_from_floating_point_prefix_refuted :
   C02.ModelFf.ffp_prefix 233 7 3 [120] = UB OutOfBounds /\ C02.ModelFf.ffp_m 233 7 3 [120] = Ok ([120], 1, Some 0)
